@@ -1,5 +1,5 @@
 (* Lemmas about the workflow-loader model (model/Load.v). *)
-From Verif Require Import Common Load.
+From Verif Require Import Common Gen_LoadStages Load.
 Open Scope N_scope.
 
 (* ---------- induction principles for the nested types ---------- *)
@@ -811,3 +811,17 @@ Definition ex_sched_lr : schedule :=
   [[]; [0]; [0;0]; [0;0;0]; [0;0;1]; [0;0]; [0;1]; [0;1;0]; [0;1;1]; [0;1]; [0]; [1]; []]%nat.
 Definition ex_sched_rl : schedule :=
   [[]; [1]; [0]; [0;1]; [0;0]; [0;1;1]; [0;0;1]; [0;1;0]; [0;0;0]; [0;1]; [0;0]; [0]; []]%nat.
+
+(* the stage assignment found in the source is the one the model implements *)
+Lemma stages_as_modelled :
+  load_stage_table = model_stage_table /\ load_stage_count = model_stage_count /\
+  load_disabled_check_stage = model_disabled_check_stage.
+Proof. repeat split; reflexivity. Qed.
+
+(* under every schedule a live template error (other than in `enabled`) fails the load *)
+Lemma error_fails_every_schedule c r s o :
+  terr false c [] r -> run coded s (WTodo c [] r) = WDone o -> o = Err.
+Proof.
+  intros T E. rewrite (schedule_independent coded c [] r s o E).
+  apply (terr_fails coded false c [] r T). discriminate.
+Qed.
